@@ -141,6 +141,9 @@ structure Txn where
 def beginWrite (z : Nodes) : Txn := { zone := z, ver := z, changed := false, readOnly := false, ended := false }
 /-- `zone.reader()` -/
 def beginRead (z : Nodes) : Txn := { zone := z, ver := z, changed := false, readOnly := true, ended := false }
+/-- `zone.writer(replacement=True)` : the version starts empty (`WritableVersion.__init__` skips the copy); nothing is
+published unless something was changed -/
+def beginReplace (z : Nodes) : Txn := { zone := z, ver := [], changed := false, readOnly := false, ended := false }
 
 /-- an argument of the variadic `add/replace/delete/delete_exact` -/
 inductive Arg where
@@ -495,6 +498,7 @@ structure STxn where
 
 def sBeginWrite (z : SZone) : STxn := { zone := z, ver := z, touched := false, readOnly := false, ended := false }
 def sBeginRead (z : SZone) : STxn := { zone := z, ver := z, touched := false, readOnly := true, ended := false }
+def sBeginReplace (z : SZone) : STxn := { zone := z, ver := [], touched := false, readOnly := false, ended := false }
 
 /-- the reference model never looks at the decision points: it is the intended behaviour -/
 def specCfg (cfg : Cfg) : Cfg := { cfg with d09 := false, d10 := false, gn := false }
@@ -553,7 +557,7 @@ def sDelete (cfg : Cfg) (t : STxn) (n : Name) (sel : Sel) (exact veto : Bool) : 
 def sEnd (t : STxn) (commit : Bool) : STxn × Res :=
   if t.ended then (t, .error .alreadyEnded)
   else if t.readOnly then ({ t with ended := true }, .ok .unit)
-  else if commit then ({ t with zone := t.ver, ended := true }, .ok .unit)
+  else if commit ∧ t.touched then ({ t with zone := t.ver, ended := true }, .ok .unit)   -- nothing touched: nothing published
   else ({ t with ended := true }, .ok .unit)
 
 def sStep (cfg : Cfg) (t : STxn) (op : SOp) : STxn × Res :=
